@@ -3,6 +3,7 @@ package props
 import (
 	"fmt"
 	"math/rand"
+	"strings"
 	"time"
 
 	"github.com/IBM/fluent-forward-go/fluent/protocol"
@@ -168,5 +169,76 @@ func historySweep(c *core.Ctx, sig string, alphabet []letter, exhaustLen, random
 
 // C06: no event bytes leave the client outside a live, authenticated session.
 func C06(c *core.Ctx) {
-	historySweep(c, "c06", historyAlphabet, c.N(3, 4), c.N(300, 6000), c.N(7, 9))
+	fine := setFine(c)
+	if !fine {
+		alphabet := append(append([]letter{}, historyAlphabet...),
+			// the connection's Close() reports an error: the connection is gone all the same
+			letter{"Dfail", func(r *rand.Rand, cf ccfg) cop { return cop{kind: "D", closeErr: true, wfault: -1} }},
+			letter{"R1closefail", func(r *rand.Rand, cf ccfg) cop { return cop{kind: "R", dialOK: true, closeErr: true, wfault: -1} }},
+			letter{"R0closefail", func(r *rand.Rand, cf ccfg) cop { return cop{kind: "R", dialOK: false, closeErr: true, wfault: -1} }})
+		historySweep(c, "c06", alphabet, c.N(3, 4), c.N(300, 6000), c.N(7, 9))
+	}
+	// concurrent callers: a send racing the calls that end or replace the session, a handshake racing a
+	// Reconnect (the flag must belong to the session the handshake ran on)
+	type conf struct {
+		name   string
+		cf     ccfg
+		prefix []concOp
+		progs  func(cf ccfg) [][]concOp
+	}
+	key := []byte("k3y")
+	connect := []concOp{{kind: "C", dialOK: true}}
+	confs := []conf{
+		{"shared key: Handshake || Reconnect;Send", ccfg{host: []byte("h"), key: key}, connect, func(cf ccfg) [][]concOp {
+			return [][]concOp{{{kind: "H", hsGood: true, ping: concPing(cf)}}, {{kind: "R", dialOK: true}, concSend(cf, "message", 20, "", true)}}
+		}},
+		{"shared key: Handshake;Send || Reconnect || Send", ccfg{host: []byte("h"), key: key}, connect, func(cf ccfg) [][]concOp {
+			return [][]concOp{{{kind: "H", hsGood: true, ping: concPing(cf)}, concSend(cf, "message", 21, "", true)}, {{kind: "R", dialOK: true}}, {concSend(cf, "message", 20, "", true)}}
+		}},
+		{"shared key: Handshake || Disconnect;Connect;SendRaw", ccfg{host: []byte("h"), key: key}, connect, func(cf ccfg) [][]concOp {
+			return [][]concOp{{{kind: "H", hsGood: true, ping: concPing(cf)}}, {{kind: "D"}, {kind: "C", dialOK: true}, {kind: "W", raw: []byte{0x93, 1, 0xc0}}}}
+		}},
+		{"shared key: Handshake(wrong key) || Send || Reconnect", ccfg{host: []byte("h"), key: key}, connect, func(cf ccfg) [][]concOp {
+			return [][]concOp{{{kind: "H", hsGood: false, ping: concPing(cf)}}, {concSend(cf, "message", 20, "", true)}, {{kind: "R", dialOK: true}}}
+		}},
+		{"no key: Send;Send || Disconnect || Reconnect(fail)", ccfg{host: []byte("h")}, connect, func(cf ccfg) [][]concOp {
+			return [][]concOp{{concSend(cf, "message", 20, "", true), concSend(cf, "message", 22, "", true)}, {{kind: "D"}}, {{kind: "R", dialOK: false}}}
+		}},
+	}
+	total := 0
+	for _, cfn := range confs {
+		cfn := cfn
+		progs := cfn.progs(cfn.cf)
+		budget := c.N(250, 20000)
+		if fine {
+			budget = c.N(25, 3000)
+		}
+		n, _ := concExplore(c, "c06", cfn.cf, cfn.prefix, progs, budget, cfn.name, func(run concRun, replay map[string]interface{}) {
+			// with a shared key, event bytes only go to a connection on which this client has written a
+			// PING (a handshake ran on it) -- and only after that; never to a connection it has closed
+			pinged, closed := map[string]bool{}, map[string]bool{}
+			for _, ev := range append(append([]string{}, run.pre...), run.events...) {
+				f := strings.Split(ev, ":")
+				if len(f) < 3 {
+					continue
+				}
+				switch f[1] {
+				case "1":
+					pinged[f[2]] = true
+				case "4":
+					closed[f[2]] = true
+				case "0":
+					if cfn.cf.key != nil && !pinged[f[2]] {
+						c.Violation("judge-go", "c06-unauthenticated-write", "event bytes were written to connection "+f[2]+" on which no handshake ran ("+cfn.name+")", replay)
+					}
+					if closed[f[2]] {
+						c.Violation("judge-go", "c06-write-after-close", "event bytes were written to connection "+f[2]+" after the client closed it ("+cfn.name+")", replay)
+					}
+				}
+			}
+		})
+		total += n
+		c.Sample(map[string]interface{}{"configuration": cfn.name, "schedules": n})
+	}
+	c.Extra("concurrent_schedules", total)
 }
